@@ -26,7 +26,9 @@ CMT = 'COMMENT = _{ "#" ~ "!" }\n'
 FAMILIES: dict[str, dict] = {
     "string": {"grammars": ['a = { "x" }', 'a = { "xy" ~ "x" }', 'a = { ^"xy" }', "a = { 'x'..'y' ~ ANY }", 'a = { SOI ~ "x" ~ EOI }'], "alphabet": "xyX", "n": 3},
     "sequence": {"grammars": [WSP + 'a = { "x" ~ "y" }', WSP + 'a = { "x" ~ "y"? }', WSV + 'a = { "x" ~ "y"? ~ "x"* }', WSP + CMT + 'a = { "x" ~ "y" ~ "x"? }'], "alphabet": "xy #!", "n": 5},
-    "choice": {"grammars": ['a = { "x" ~ "y" | "x" }', 'a = { ("x" ~ "y" | "x") ~ "x" }', WSP + 'a = { ("x" ~ "y" | "x") ~ "y" }', 'b = { "x" }\na = { b ~ "y" | b ~ "x" | b }'], "alphabet": "xy ", "n": 4},
+    "choice": {"grammars": ['a = { "x" ~ "y" | "x" }', 'a = { ("x" ~ "y" | "x") ~ "x" }', WSP + 'a = { ("x" ~ "y" | "x") ~ "y" }', 'b = { "x" }\na = { b ~ "y" | b ~ "x" | b }',
+                             # alternatives sharing a first item, in a rule that ends there (what a choice factorizer rewrites)
+                             WSP + 'b = { "x" ~ "y" | "x" }\na = { b ~ "x"? }', WSP + 'b = { "x" | "x" ~ "y" }\na = { b ~ "y"? }', WSP + 'b = { "x" ~ "y" | "x" ~ "x" | "x" }\na = { b* }'], "alphabet": "xy ", "n": 4},
     "optional": {"grammars": ['a = { ("x" ~ "y")? ~ "x" }', 'b = { "x" }\na = { (b ~ "y")? ~ b }', WSP + 'a = { "x"? ~ "y" }'], "alphabet": "xy ", "n": 4},
     "repeat": {"grammars": [WSP + 'a = { "x"* }', WSP + 'a = { "x"* ~ "y" }', WSV + 'a = { ("x" ~ "y")* ~ "x" }', WSP + CMT + 'a = { "x"* }', 'b = { "x" }\na = { (b ~ "y")* }'], "alphabet": "xy #!", "n": 5},
     "repeat_once": {"grammars": [WSP + 'a = { "x"+ }', WSP + 'a = { "x"+ ~ "y" }', WSV + 'a = { ("x" ~ "y")+ ~ "x"? }', 'b = { "x" }\na = { (b ~ "y")+ }'], "alphabet": "xy ", "n": 5},
@@ -48,6 +50,15 @@ FAMILIES: dict[str, dict] = {
     "optimizer_inline": {"grammars": ['COMMENT = _{ "x" ~ "y" }\na = { COMMENT }', 'c = { "x" }\ns = _{ c ~ "y" }\na = { #tt=s ~ s? }', 'c = { "x" }\na = { #tt=(c)+ }', 's = _{ "x" ~ s? ~ "y" }\na = { s }', 'WHITESPACE = _{ " " }\ns = _{ "x" ~ "y" }\na = @{ s ~ s }'], "alphabet": "xy ", "n": 5},
     "optimizer_unicode": {"grammars": ['a = { (LETTER | "_") ~ (LETTER | ASCII_DIGIT | "_")* }', 'a = { (HAN | "x" | "xy")+ }'], "alphabet": "x_1\u00e9\u4e00", "n": 3},
     "comment_only": {"grammars": ['COMMENT = _{ "#" ~ (!"!" ~ ANY)* ~ "!" }\na = { "x" ~ "y" }', 'COMMENT = _{ "#" ~ (!"!" ~ ANY)* ~ "!" }\nb = { "x" }\na = { b* ~ "y" }'], "alphabet": "xy#!", "n": 6},
+    # recursive rules whose stack operation comes AFTER the construct holding the recursive reference, reached through an outer
+    # backtracking operator (round-6 seed C05c: position-only checkpoints for sub-expressions wrongly cached as stack-free)
+    "recursive_stack": {"grammars": ['a = { SOI ~ n* ~ "=" ~ POP_ALL ~ EOI }\nn = { "(" ~ (n ~ "!" | n ~ "?")? ~ ")" ~ PUSH_LITERAL("n") }',
+                                     'a = { SOI ~ n* ~ "=" ~ POP_ALL ~ EOI }\nn = { "(" ~ (n ~ "!")? ~ "()"? ~ ")" ~ PUSH_LITERAL("n") }',
+                                     'a = { SOI ~ n* ~ "=" ~ POP_ALL ~ EOI }\nn = { "(" ~ (n ~ ",")* ~ n? ~ ")" ~ PUSH_LITERAL("n") }',
+                                     'a = { SOI ~ n* ~ "=" ~ POP_ALL ~ EOI }\nn = { "(" ~ !(n ~ "!") ~ &(n ~ "?")? ~ n? ~ "?"? ~ ")" ~ PUSH_LITERAL("n") }',
+                                     'a = { SOI ~ m* ~ "=" ~ POP_ALL ~ EOI }\nm = { "(" ~ (k ~ "!" | k ~ "?")? ~ ")" ~ PUSH_LITERAL("n") }\nk = { m }'],
+                        "alphabet": "()!?,=n", "n": 0,
+                        "texts": [pre + "=" + "n" * k for pre in ("()", "(()!)", "(()?)", "((()?)?)", "(())", "((),)", "((),())", "((()!)?)", "(()?)()", "()(()?)", "((()?)!)", "(((),)?)") for k in range(0, 6)]},
     "tags": {"grammars": ['b = { "x" }\na = { #t = b }', 'b = { "x" }\na = { #t = b ~ "y"? }', 'b = { "x" }\nc = { "y" }\na = { #t = b ~ #u = c }', 'c = { "x" }\nb = { #u = c }\na = { #t = b }',
                           'c = { "x" }\nb = { c ~ c? }\na = { #t = b ~ "y"? }', 'b = { "x" }\na = { (#t = b)+ }', 'b = { "x" }\na = { #t = b | #u = ("y" ~ b) }'], "alphabet": "xy", "n": 4},
     "atomic_visibility": {"grammars": ['d = { "y" }\nb = ${ d }\na = @{ "x" ~ b }', 'd = { "y" }\na = @{ "x" ~ d }'], "alphabet": "xy", "n": 2},
@@ -55,15 +66,15 @@ FAMILIES: dict[str, dict] = {
 
 CLASS_FAMILY = {
     "String": ["string"], "CIString": ["string"], "Range": ["string"], "_Any": ["string"], "_SOI": ["string"], "_EOI": ["string"],
-    "Sequence": ["sequence", "trivia"], "Choice": ["choice", "stack_backtrack"], "Optional": ["optional", "stack_backtrack"],
-    "Repeat": ["repeat", "trivia", "stack_backtrack"], "RepeatOnce": ["repeat_once"], "RepeatExact": ["repeat_exact"],
+    "Sequence": ["sequence", "trivia"], "Choice": ["choice", "stack_backtrack", "recursive_stack"], "Optional": ["optional", "stack_backtrack", "recursive_stack"],
+    "Repeat": ["repeat", "trivia", "stack_backtrack", "recursive_stack"], "RepeatOnce": ["repeat_once"], "RepeatExact": ["repeat_exact"],
     "RepeatMin": ["repeat_min"], "RepeatMax": ["repeat_max"], "RepeatMinMax": ["repeat_minmax"],
-    "PositivePredicate": ["predicate", "stack_backtrack"], "NegativePredicate": ["predicate", "stack_backtrack"],
+    "PositivePredicate": ["predicate", "stack_backtrack", "recursive_stack"], "NegativePredicate": ["predicate", "stack_backtrack", "recursive_stack"],
     "Rule": ["rule", "trivia", "atomic_visibility"], "Identifier": ["rule", "choice"], "Group": ["choice", "optional"],
-    "ParserState": ["trivia", "sequence", "repeat", "stack_backtrack"], "Parser": ["string", "sequence"],
+    "ParserState": ["trivia", "sequence", "repeat", "stack_backtrack", "recursive_stack"], "Parser": ["string", "sequence"],
     "Push": ["push", "stack_backtrack"], "PushLiteral": ["push"], "Peek": ["push", "stack_backtrack"], "Pop": ["push", "stack_backtrack"],
     "PeekAll": ["push", "stack_backtrack"], "PopAll": ["push", "stack_backtrack"], "PeekSlice": ["push"], "Drop": ["push", "stack_backtrack"],
-    "Stack": ["stack_backtrack"], "generate": ["trivia", "sequence", "repeat"],
+    "Stack": ["stack_backtrack", "recursive_stack"], "generate": ["trivia", "sequence", "repeat"],
     "SkipUntil": ["optimizer_skip"], "skip": ["optimizer_skip"], "OptimizedChoice": ["optimizer_squash", "optimizer_ranges", "optimizer_unicode"], "squash_choice": ["optimizer_squash", "optimizer_ranges", "optimizer_unicode"], "lazy_patterns_compile": ["optimizer_unicode"],
     "inline": ["optimizer_inline"], "unroll": ["repeat_exact", "repeat_min", "repeat_max", "repeat_minmax", "repeat_once", "optimizer_inline"],
     "skip_rule": ["comment_only", "trivia"], "RegexExpression": ["optimizer_squash"],
@@ -169,7 +180,7 @@ def search(families: list[str], modes=MODES, limit: int = 1, skip=()):
         for g in spec["grammars"]:
             if g in skip_grammars:
                 continue  # a listed known finding: every input of this grammar is attributed to it
-            for text in inputs(spec["alphabet"], spec["n"]):
+            for text in (spec["texts"] if "texts" in spec else inputs(spec["alphabet"], spec["n"])):
                 r = check_case(g, "a", text, 0, modes)
                 if r:
                     found.append({"family": fam, "grammar": g, "rule": "a", "text": text, **r})
